@@ -70,6 +70,24 @@ def univariate_option_replay(env):
     return {'confirmed': bool(bad), 'detail': bad[0] if bad else 'fit with selection_sample_size leaves X untouched'}
 
 
+def distribution_dict_replay(env):
+    import numpy as np
+    import pandas as pd
+    import warnings
+    warnings.simplefilter('ignore')
+    from copulas.multivariate import GaussianMultivariate
+    from copulas.univariate import GaussianUnivariate
+    rs = np.random.RandomState(4)
+    X = pd.DataFrame(rs.normal(size=(60, 3)), columns=['a', 'b', 'c'])
+    dist = {'b': GaussianUnivariate}
+    m = GaussianMultivariate(distribution=dist)
+    m.fit(X)
+    m.sample(3)
+    m.to_dict()
+    ok = dist == {'b': GaussianUnivariate}
+    return {'confirmed': not ok, 'detail': 'distribution dict after fit: %r' % (sorted(dist),)}
+
+
 def vine_frame_replay(env):
     import warnings
     import numpy as np
@@ -271,6 +289,32 @@ def build(chk):
             I.call_method(m, 'sample', [msym], {'conditions': cs})
         res, ctx = engine.run_paths(I, bodyg)
         frame_obs(chk, 'GaussianMultivariate.%s' % rep, res, gm.GM, native_replay)
+    # ---- per-column dict of marginals naming only some columns: the caller's dict is read, never completed -------------------
+    I = engine.new_interp()
+    gm.install_rootfinders(I)
+    I.summaries['copulas.univariate.selection.select_univariate'] = \
+        lambda interp, args, kwargs: uni.new_model(interp, 'GaussianUnivariate')
+    labels3 = gm.NAMES[:3]
+
+    def bodyd(c, I=I):
+        G = I.resolve(uni.CLASSES['GaussianUnivariate'][0])
+        dist = {labels3[1]: G}
+        OWNERS[id(dist)] = (dist, 'distribution')
+        c.assume(ir.ge(gm.N, 2))
+        c.assume(ir.ge(M, 1))
+        m = I.call_qual(gm.GM, [], {'distribution': dist})
+        I.call_method(m, 'fit', [gm.training_frame(labels3, owner='X')])
+        I.call_method(m, 'sample', [Sym(M)])
+        I.call_method(m, 'to_dict', [])
+        c.out['dist_keys'] = list(dist)
+    res, ctx = engine.run_paths(I, bodyd)
+    frame_obs(chk, 'GaussianMultivariate.partial_dict', res, gm.GM, distribution_dict_replay)
+    for k, r in enumerate(res):
+        if r.outcome == 'return':
+            chk.add(Ob('C20.GaussianMultivariate.partial_dict.keys.%d' % k, [], ir.const(r.state['dist_keys'] == [labels3[1]]),
+                       backends=('syntactic',), function=gm.GM + '._get_distribution_for_column', kind='frame',
+                       replay=distribution_dict_replay,
+                       clause="the caller's distribution dict still has exactly the keys it was given"))
     # ---- the selecting Univariate with the sub-sampling option: fit must not touch the caller's array -----------------------
     for opt in ('selection_sample_size',):
         I = engine.new_interp()
